@@ -163,8 +163,10 @@ def run(ctx):
         for ti, tau in enumerate(taus + far):
             if quick and (idx + ti) % 2:
                 continue
-            jobs.append({"case": case, "variant": {"sysmode": "td", "subdiv": None if ti % 2 == 0 else 64, "start": tau},
-                         "seed": ctx.seed})
+            v_ = {"sysmode": "td", "subdiv": None if ti % 2 == 0 else 64, "start": tau}
+            if (idx + ti) % 3 == 0:
+                v_["warm_start"] = 0.125       # the system object was used before, for a run starting 0.125 later
+            jobs.append({"case": case, "variant": v_, "seed": ctx.seed})
     for job, res in zip(jobs, core.pmap(ieng.run_variant, jobs, chunksize=4)):
         cid = dict(ieng.case_id(job["case"], job["variant"]), part="a")
         ctx.case(cid, nontrivial=job["variant"]["start"] != 0)
